@@ -1,7 +1,7 @@
 (* GENERATED on every run by harness/py2coq_dbget.py from tinyflux/database.py (the getters of class TinyFlux) - do not edit.
    proofs/DbGetGenP.v proves them, with the read_op decorator, equal to the specification on the stored rows on both paths. *)
 From Coq Require Import List ZArith Bool Arith.
-From TF Require Import Base Query Index IndexSem DbSem.
+From TF Require Import Base Query Index DB IndexSem DbSem.
 From TF Require gen.IndexGen.
 Import ListNotations.
 
@@ -19,6 +19,12 @@ Definition gen_db___iter__ (self : pydb) : list point :=
   yielded)
     (db_rows self) yielded in
   yielded.
+
+Definition gen_db_all (self : pydb) (sorted : bool) : list point :=
+  let points := (db_rows self) in
+  let points := (if sorted then (let points := (sort_points points) in
+  points) else (points)) in
+  points.
 
 Definition gen_db_get_measurements (self : pydb) : list str :=
   if (IndexGen.gen_valid (db_index self))
